@@ -208,6 +208,14 @@ pub fn check_case(c: &Case, rep: &mut Report) {
             let _ = n.create_negotiate_message();
             let _ = n.read_challenge_message(&ch0);
         }
+        // one case in five: the application asked for a NEGOTIATE, dropped it (a first attempt that never left) and asked
+        // again; the server has seen the last one only
+        if round_seed % 5 == 1 {
+            let _ = n.create_negotiate_message();
+            if round_seed % 10 == 1 {
+                let _ = n.create_negotiate_message();
+            }
+        }
         let neg = n.create_negotiate_message().map_err(|e| client::err_kind(&e))?;
         let auth = n.read_challenge_message(&ch).map_err(|e| client::err_kind(&e))?;
         Ok::<_, String>((neg, auth))
